@@ -125,6 +125,13 @@ def run(res, prop, propfile, corpus, *, entry="VT", use_ctx=False, spec=True, al
                 what.append("the function does not end with `if len(errs) > 0 { return errs }; return nil`")
             if r["safe"] & 8:
                 what.append("Validate<T>, Validate or ValidateContext do not delegate to Validate<T>Context as documented")
+            if r["safe"] & 16:
+                what.append("a check copies an error variable that the var block does not declare: conclusion of C08_no_missing_declaration fails on the emitted file")
+            if r["safe"] & 32 and not (r["kf"] & 4):
+                what.append("two declarations of the var block share a name although the generator model predicts distinct names")
+            if not what:
+                what = None
+        if r.get("safe") and what:
             res.violation({"kind": "correspondence-break", "struct": m["key"], "source": src, "what": "; ".join(what),
                            "theorem": "side condition of the program-independent theorems, evaluated on the translated file p_%d" % i},
                           found_input=bool(r["ms"] or r["mm"]))
